@@ -261,8 +261,16 @@ def digest(b: bytes) -> str:
 
 def observe(case, segs, entry):
     sim, files, sink, ivs = build(case)
-    for n in segs:
-        drive(sim, entry, n, case["driver"] not in FBLIKE)
+    if case.get("prepared") and entry in ("irun", "irunraw"):
+        lazy = case["driver"] not in FBLIKE and entry == "irun"
+        for g in [sim.irun(n) for n in segs]:
+            for st in g:
+                if lazy:
+                    for _ in st:
+                        pass
+    else:
+        for n in segs:
+            drive(sim, entry, n, case["driver"] not in FBLIKE)
     at = sim.atoms
     log = files["log"].getvalue()
     lines = log.split("\n")
@@ -345,6 +353,9 @@ class RunSplit(common.Suite):
             c.update(force)
         if not c["wrap"]:
             c["trajint"] = c["restint"] = c["logint"]
+        # the `irun` generators of all segments are CREATED first and iterated one after the other afterwards
+        # (`itertools.chain(sim.irun(a), sim.irun(b))`): each, fully iterated, performs exactly its own number of steps
+        c["prepared"] = c["entry"] in ("irun", "irunraw") and c["seed"] % 3 == 0
         return c
 
     def cases(self, rng, tier):
